@@ -490,6 +490,13 @@ pub fn run_real(env: &RealEnv, w: &World, inv: &RInv) -> ROut {
         let cap = !env.n2.to_string_lossy().contains("n2-asan") && !env.n2.to_string_lossy().contains("n2-tsan") && env.wrapper.is_empty();
         cmd.pre_exec(move || {
             libc::setpgid(0, 0);
+            // A check started as a background job of a non-interactive shell inherits SIGINT/SIGQUIT
+            // set to "ignore", and so would n2 and every command: give n2 the dispositions it has
+            // when a user runs it from a terminal.
+            libc::signal(libc::SIGINT, libc::SIG_DFL);
+            libc::signal(libc::SIGQUIT, libc::SIG_DFL);
+            libc::signal(libc::SIGHUP, libc::SIG_DFL);
+            libc::signal(libc::SIGPIPE, libc::SIG_DFL);
             if cap {
                 // a runaway allocation in n2 must not take the machine down
                 let lim = libc::rlimit { rlim_cur: 6 << 30, rlim_max: 6 << 30 };
